@@ -564,7 +564,68 @@ def sessions_case(ctx, case):
     ctx.label('sessions')
 
 
-COMPONENTS = {'writer': writer_case, 'reader': reader_case,
+def burst_case(ctx, case):
+    """'No packet is lost ... or reordered' at the place the statement names
+    as observation point: packets handed to listeners by a real Connection.
+    The server sends n frames in one burst (more than the networking loop
+    handles per pass); an early listener must see every one of them once, in
+    order.  case {version, compress, encrypt, n, sizes [..], plan}"""
+    from vlib import servers
+    from minecraft.networking.packets import Packet
+    version, n = case['version'], case['n']
+    ctx.ev()
+    login = []
+    if case.get('encrypt'):
+        login.append(('encrypt', 1024, b'\x01\x02\x03\x04', '-'))
+    if case.get('compress') is not None:
+        login.append(('compress', case['compress']))
+    login.append(('success',))
+    sizes = case.get('sizes') or [0]
+    # ids no table of any version knows; the payload carries the index
+    burst = [('raw', 0x7A + (i % 3), i.to_bytes(4, 'big') +
+              bytes(sizes[i % len(sizes)])) for i in range(n)]
+    srv = servers.Server({'version': version, 'login': login,
+                          'play': {'bursts': [burst], 'mode': 'all',
+                                   'end': 'disconnect'}})
+    plan = case.get('plan', 'whole')
+    world = vnet.World(servers=[srv],
+                       plan=list(plan) if isinstance(plan, tuple) else plan)
+    seen = []
+    with vnet.installed(world):
+        conn, o = servers.make_connection(world, allowed_versions={version})
+        conn.register_packet_listener(
+            lambda p: seen.append(p.id), Packet, early=True)
+        try:
+            conn.connect()
+        except Exception as e:
+            ctx.fail('burst', 'R1-connect-raised', case, exc=e)
+            return
+        state = world.settle()
+    if state == 'timeout':
+        from vlib.core import HarnessError
+        raise HarnessError('C01 burst case did not settle')
+    if state != 'done':
+        ctx.fail('burst', 'R1-client-%s' % state, case)
+        return
+    if o.exceptions:
+        ctx.fail('burst', 'R1-read-raises', case, repr(o.exceptions[0][0]))
+        return
+    got = [i for i in seen if i in (0x7A, 0x7B, 0x7C)]
+    want = [0x7A + (i % 3) for i in range(n)]
+    if got != want:
+        k = next((j for j, (a, b) in enumerate(zip(got, want)) if a != b),
+                 min(len(got), len(want)))
+        ctx.fail('burst', 'R1-sequence', case,
+                 '%d packets handed over, first difference at %d'
+                 % (len(got), k), '%d packets' % n)
+        return
+    if n > 50:
+        ctx.nt('burst', repr(case))
+    ctx.label('burst')
+
+
+COMPONENTS = {'burst': burst_case,
+              'writer': writer_case, 'reader': reader_case,
               'loop': loop_case, 'fuzz_stream': fuzz_stream_case,
               'sessions': sessions_case}
 
@@ -751,11 +812,39 @@ def t_fuzz_hyp(ctx, n):
     hyp(ctx, 'fuzz_hyp', strat, lambda c, case: fuzz_stream_case(c, case), n)
 
 
+def t_burst(ctx, n):
+    k = 0
+    for v in (757, 340, 47):
+        for nn in (49, 50, 51, 52, 99, 100, 101, 102, 151, 320):
+            k += 1
+            burst_case(ctx, {'version': v, 'n': nn,
+                             'compress': [None, 0, 64][k % 3],
+                             'encrypt': bool(k % 2), 'sizes': [0, 70, 3],
+                             'plan': 'whole'})
+    ctx.exhaustive_done('bursts of 49-320 frames at 3 protocols (around the '
+                        '50-packet pass limit of the networking loop)')
+    strat = st.fixed_dictionaries({
+        'version': st.sampled_from([757, 340, 47]),
+        'n': st.integers(1, 200), 'compress': st.sampled_from([None, 0, 64]),
+        'encrypt': st.booleans(),
+        'sizes': st.lists(st.integers(0, 100), min_size=1, max_size=4),
+        'plan': st.one_of(st.just('whole'),
+                          st.lists(st.integers(1, 400), min_size=1,
+                                   max_size=5))})
+
+    def body(c, case):
+        burst_case(c, case)
+        if c.evaluations % 30 == 1:
+            c.sample(case, 'burst')
+    hyp(ctx, 'burst', strat, body, n)
+
+
 def tasks(tier):
     q = tier == 'quick'
     ncomb = len(FAMILY) * len(MODES) * 2
     tl = [('threshold_edges', t_threshold_edges, {}),
           ('sessions', t_sessions, dict(n=40 if q else 1500)),
+          ('burst', t_burst, dict(n=40 if q else 1500)),
           ('mutated_streams', t_fuzz_hyp, dict(n=400 if q else 20000))]
     if not q:
         tl.append(('fuzz_stream', t_fuzz, dict(runs=400000)))
